@@ -14,10 +14,10 @@ Record fops := mk_fops {
   op_fneg : Z -> Z; op_fadd : Z -> Z -> Z; op_fsub : Z -> Z -> Z; op_fmul : Z -> Z -> Z; op_fdiv : Z -> Z -> Z;
   op_flt : Z -> Z -> bool; op_fgt : Z -> Z -> bool; op_fle : Z -> Z -> bool; op_fge : Z -> Z -> bool;
   op_feq : Z -> Z -> bool; op_fne : Z -> Z -> bool; op_fnonzero : Z -> bool;
-  op_fround32 : Z -> Z; op_f_of_Z : Z -> Z; op_f_trunc : Z -> option Z
+  op_fround32 : Z -> Z; op_f_of_Z : Z -> Z; op_f32_of_Z : Z -> Z; op_f_trunc : Z -> option Z
 }.
 Definition flocq_ops : fops :=
-  mk_fops fneg fadd fsub fmul fdiv flt fgt fle fge feq fne fnonzero fround32 f_of_Z f_trunc.
+  mk_fops fneg fadd fsub fmul fdiv flt fgt fle fge feq fne fnonzero fround32 f_of_Z f32_of_Z f_trunc.
 
 Definition M64 : Z := 18446744073709551616.       (* 2^64 *)
 Definition H64 : Z := 9223372036854775808.        (* 2^63 *)
@@ -165,7 +165,9 @@ Definition cast_const (t lt : ty) (lc : Z) : res :=
       Val (cast t (if is_float lt then b2z (op_fnonzero F lc) else b2z (negb (lc =? 0))))
   | _ =>
     if is_int lt && is_float t then
-      Val (cast t (if is_signed lt then op_f_of_Z F (i64 lc) else op_f_of_Z F lc))
+      (* `t->size == 4 ? (float)l->u.constant.i : l->u.constant.i` *)
+      let conv := match t with TFloat sz => if sz =? 4 then op_f32_of_Z F else op_f_of_Z F | _ => op_f_of_Z F end in
+      Val (cast t (if is_signed lt then conv (i64 lc) else conv lc))
     else if is_float lt && is_int t then
       (* the tests are written as "inside the range", so that a NaN (every comparison false) is diagnosed;
          with Flocq's operations the HostUB arms are unreachable (Proofs/EvalProofsFloat.v, float_to_int_never_host_ub) *)
